@@ -20,7 +20,9 @@ def parse_spot(
     **kwargs: Any,
 ) -> Tensor:
     spot = _as_optional_tensor(spot)
-    strike = _as_optional_tensor(strike)
+    if not isinstance(strike, Real):
+        # A number is applied in the dtype of the other operand.
+        strike = _as_optional_tensor(strike)
     moneyness = _as_optional_tensor(moneyness)
     log_moneyness = _as_optional_tensor(log_moneyness)
 
